@@ -12,6 +12,7 @@ Decided (static, all paths of the named functions):
 Not decided: byte-level behaviour of idf_input_string on arbitrary bytes.
 """
 from ..facts import peel, strip_casts, show, walk, cond_atom
+from . import gates as G
 from .common import (stream_chain, callee_short, field_of, base_of, deref, local_ref,
                      assigned_target, const_int, refs_local, is_method_call)
 
@@ -487,6 +488,41 @@ def _byte_copy(ctx):
         cstr = [c for c in f.walk() if c.get("k") == "call" and callee_short(c) in ("c_str", "data")]
         ctx.ob("R12.5", "idf_output_string(std::string)|writes-whole-string", wrote_len and not cstr, f.loc(),
                "writes the length and the std::string itself (a c_str() would stop at the first NUL byte)")
+    # R12.6: a std::string read back replaces whatever the destination held (readers reuse one element object for a
+    # whole vector, and records are read into objects that were used before): after the length was read successfully,
+    # every path assigns the destination - also for length 0
+    ctx.rule("R12.6", "idf_input_string(istream&, std::string&) assigns its destination on every path after the length has been read successfully (an empty string read back must clear the destination)")
+    n6 = 0
+    for f in db.fns("idf_input_string"):
+        if "basic_string" not in f.sig and "std::string" not in f.sig:
+            continue
+        n6 += 1
+        dest = f.params[1]["d"]
+        cfg = f.cfg
+
+        def read_ok(atom, truth):
+            return atom.get("k") == "call" and callee_short(atom) in ("fail", "bad") and not truth
+        ok_edges = G.edges_where(f, read_ok)
+        writes = []
+        for x in f.walk():
+            t = assigned_target(x)
+            tgt = t[0] if t else None
+            if tgt is None and x.get("k") == "call" and callee_short(x) in ("operator=", "assign", "clear", "resize", "swap") and (x.get("a") or "this" in x):
+                tgt = x["a"][0] if x.get("opc") else x.get("this")
+            if tgt is not None and (local_ref(tgt) or {}).get("d") == dest:
+                loc = cfg.locate(x)
+                if loc:
+                    writes.append(loc[0])
+        bad = False
+        if not ok_edges or not writes:
+            bad = True
+        for (b, i) in ok_edges:
+            s0 = cfg.blocks[b].succs[i]
+            if s0 is not None and s0 not in writes and cfg.exit in cfg.reachable(s0, cut_blocks=writes):
+                bad = True
+        ctx.ob("R12.6", "idf_input_string(std::string&)|destination-always-assigned", not bad, f.loc(),
+               "after a successful length read the destination string is %sassigned on every path" % ("" if not bad else "NOT "))
+    ctx.floor("R12.6", "std::string readers", n6, 1)
 
 
 def _all(evs):
